@@ -320,7 +320,8 @@ Definition set_item (r : racc) (k : string) (v : tree) : res racc :=
       | NonT od _ dm, NonT _ vp _ =>
           (* dest.update(value, inplace=True): self.data = value.data (the same payload, unless out= supplied the value) *)
           if m_lock dm then Raised EValue else Ok (mkAcc (r_obj r1) (r_meta r1) (fset (r_f r1) k (NonT od vp dm)))
-      | NonT _ _ _, _ => Raised EValue
+      | NonT _ _ _, Leaf New _ => Raised EValue            (* a tensor returned by fn over a non-tensor entry *)
+      | NonT _ _ _, _ => Unmodelled                        (* an entry of out= of another kind handed back for a non-tensor entry *)
       | Node od _ _, Node ov _ _ =>
           (* dest.update(value, inplace=True) with value the same object, already written by the nested level *)
           match od, ov with
